@@ -7,7 +7,7 @@
    stays below the 16-bit length fields).  For EVERY bit string shorter than 65000 bytes the outcome is
    a buffer or RuleIDMatchError.  Only statements; proofs in theories/SchcTotal.v. *)
 From Coq Require Import ZArith List Bool.
-From MS Require Import PyBase Buffer Bits BufferAbs Schc SchcSpec SchcRules Compute SchcTotal SchcBytes SchcRefine ComputeBytes TotalBytes.
+From MS Require Import PyBase Buffer Bits BufferAbs Schc SchcSpec SchcRules Compute SchcTotal SchcBytes SchcRefine ComputeBytes TotalBytes ManagerBytes TotalManagerBytes.
 Import ListNotations.
 Open Scope Z_scope.
 
@@ -41,8 +41,19 @@ Theorem c20_rule_total_bytes s r d : canon s -> canon_rule r ->
   static_bits (select_fds d (rule_fds (abs_rule abs r))) <= 4280 ->
   exists x, bdecompress_c s r d = Ok x /\ canon x.
 Proof. exact (bdecompress_c_total s r d). Qed.
+(* the byte-level context manager on a rule set of canonical rules that are well-formed for decompression
+   (brules_total_ok d rules := Forall canon_rule rules /\ forall r, In r rules -> rule_total_ok d (abs_rule abs r)) *)
+Theorem c20_manager_total_bytes rules s d : brules_total_ok d rules -> canon s -> blen s < 8 * 65000 ->
+  (exists x, bcm_decompress rules s d = Ok x /\ canon x) \/ bcm_decompress rules s d = Exc RuleIDMatchError.
+Proof. exact (bcm_decompress_total rules s d). Qed.
+(* and the front end /repo/microschc.py SCHC.decompress: a Buffer comes back, never an exception *)
+Theorem c20_front_total_bytes ctxs s : Forall (fun c => brules_total_ok (Some Up) (bctx_rules c)) ctxs -> canon s ->
+  blen s < 8 * 65000 -> exists x, bschc_decompress ctxs s = Ok x /\ canon x.
+Proof. exact (bschc_decompress_total ctxs s). Qed.
 Print Assumptions c20_fields.
 Print Assumptions c20_nocompute_total.
 Print Assumptions c20_rule_total.
 Print Assumptions c20_manager_total.
 Print Assumptions c20_rule_total_bytes.
+Print Assumptions c20_manager_total_bytes.
+Print Assumptions c20_front_total_bytes.
